@@ -266,7 +266,12 @@ class StartStageHandler(
                 synthetic_stages = self.repository.get_synthetic_stages(stage.execution.id, stage.id)
                 has_synthetic = synthetic_stages is not None and len(synthetic_stages) > 0
 
-                if not has_tasks and not has_synthetic:
+                # A stage whose tasks are predefined is RUNNING *with* tasks right
+                # after the claim; the marker written by the claim commit (and
+                # cleared by the plan commit) identifies that half-started state.
+                plan_pending = bool(stage.context.get("_plan_pending"))
+
+                if plan_pending or (not has_tasks and not has_synthetic):
                     logger.warning(
                         "Detected Zombie Stage %s (%s): RUNNING but no tasks/synthetic stages. Resuming planning.",
                         stage.name,
@@ -406,6 +411,10 @@ class StartStageHandler(
             claim_expected_phase = "NOT_STARTED"
             stage.start_time = self.current_time_millis()
             self.set_stage_status(stage, WorkflowStatus.RUNNING)
+            # Crash window between the claim commit and the plan commit: the
+            # marker lets the zombie check and recovery see that planning (the
+            # merge of upstream outputs into the context) still has to run.
+            stage.context["_plan_pending"] = True
 
         try:
             with self.repository.transaction(self.queue) as txn:
@@ -506,6 +515,9 @@ class StartStageHandler(
                 e,
             )
             raise
+
+        # Planning is done: the plan commit below clears the marker.
+        stage.context.pop("_plan_pending", None)
 
         # Collect messages to push BEFORE starting the transaction
         messages_to_push = self._collect_start_messages(stage, message)
